@@ -48,6 +48,9 @@ def items(i, n, tier):
     for j in range(0, i + 1):
         out.append(SEQ(L("("), REF("X%d" % j), L(")")))
     out += [SEQ(REF("V"), REF("R")), SEQ(REF("T"), REF("V"))]
+    if not small:
+        # predicates consume nothing and yield nothing: the alternative stands for the rule AFTER the predicate
+        out += [SEQ(("not", REF("R")), REF("S")), SEQ(("and", REF("S")), REF("S"))]
     if small:
         if i == n - 1:
             # only in the last rule: a guarded reference back to an earlier rule followed by a common rule
